@@ -54,6 +54,47 @@ pub fn replay(path: &str) {
     }
 }
 
+/// A program with one witness of exactly `n` bits whose type is pinned by the program itself (eq_* jets), so that
+/// the C type checker infers the same type: main = comp witness (W1 x (W2 x ...) -> 1), widths from {256,64,32,16,8,1}.
+pub fn witness_of_width(n: usize, rng: &mut Rng) -> (Vec<u8>, Vec<u8>) {
+    use crate::prog::{elements_jet, CN};
+    use simplicity::node::{CoreConstructible, JetConstructible, WitnessConstructible};
+    use simplicity::types::Final;
+    let mut parts: Vec<usize> = vec![];
+    let mut rest = n;
+    for w in [256usize, 64, 32, 16, 8, 1] { while rest >= w { parts.push(w); rest -= w; } }
+    types::Context::with_context(|ctx| {
+        let pin = |w: usize| -> CN {
+            let i = CN::iden(&ctx);
+            let both = CN::pair(&i, &i).unwrap();
+            CN::comp(&both, &CN::jet(&ctx, &elements_jet(&format!("eq_{}", w)))).unwrap()
+        };
+        // body and type, built from the last component outwards
+        let mut body: Option<CN> = None;
+        let mut ty: Option<std::sync::Arc<Final>> = None;
+        for w in parts.iter().rev() {
+            let wt = Final::two_two_n(w.trailing_zeros() as usize).unwrap();
+            match (body.take(), ty.take()) {
+                (None, None) => { body = Some(CN::comp(&pin(*w), &CN::unit(&ctx)).unwrap()); ty = Some(wt); }
+                (Some(b), Some(t)) => {
+                    let p = CN::pair(&CN::take(&pin(*w)), &CN::drop_(&b)).unwrap();
+                    body = Some(CN::comp(&p, &CN::unit(&ctx)).unwrap());
+                    ty = Some(Final::product(wt, t));
+                }
+                _ => unreachable!(),
+            }
+        }
+        let ty = ty.unwrap_or_else(Final::unit);
+        let bits: Vec<bool> = (0..n).map(|_| rng.bool()).collect();
+        let bytes = bytes_from_bits(&bits);
+        let val = simplicity::Value::from_compact_bits(&mut BitIter::from(&bytes[..]), &ty).expect("witness value");
+        let wit = CN::witness(&ctx, Some(val));
+        let main = CN::comp(&wit, &body.unwrap_or_else(|| CN::unit(&ctx))).unwrap();
+        let redeem = main.finalize_unpruned().expect("finalize");
+        redeem.to_vec_with_witness()
+    })
+}
+
 pub fn record(runs: usize, path: &str) {
     let mut rng = Rng::from_env(3);
     let mut out = Out::file(path);
@@ -77,6 +118,11 @@ pub fn record(runs: usize, path: &str) {
     };
     // valid encodings as they are
     for (p, w) in pool.iter() { emit(&mut out, p, w); }
+    // witnesses of every bit length around the block boundaries of the hashes that absorb them
+    let step = if runs >= 20000 { 1 } else { 3 };
+    for n in (0..=1100usize).filter(|n| n % step == 0 || (n % 512 >= 424 && n % 512 <= 460) || n % 512 <= 8 || n % 512 >= 500) {
+        if let Ok((p, w)) = guarded(|| witness_of_width(n, &mut Rng::new(n as u64))) { emit(&mut out, &p, &w); }
+    }
     // mutations and random strings
     for k in 0..runs {
         let (pb, wb): (Vec<u8>, Vec<u8>) = if k % 4 == 0 || pool.is_empty() {
